@@ -158,6 +158,18 @@ func (s *scn) twinCheck(h uint64, ev *pb.CommitEvent, txs []*pb.BxhTransaction, 
 	if len(failed) > 0 && !s.inSetup {
 		pick = failed[int(h)%len(failed)]
 	}
+	if s.prop == "C17" && !s.inSetup {
+		// direct calls are checked whether they failed or not
+		var calls []int
+		for i, m := range metas {
+			if m.kind == "call" && i < len(ref.Receipts) {
+				calls = append(calls, i)
+			}
+		}
+		if len(calls) > 0 {
+			pick = calls[int(h)%len(calls)]
+		}
+	}
 	if pick >= 0 {
 		f := txs[pick]
 		nb := &pb.Block{BlockHeader: &pb.BlockHeader{Version: ev.Block.BlockHeader.Version, Number: h, Timestamp: ev.Block.BlockHeader.Timestamp}, Transactions: &pb.Transactions{}}
@@ -198,6 +210,12 @@ func (s *scn) twinCheck(h uint64, ev *pb.CommitEvent, txs []*pb.BxhTransaction, 
 			}
 		}
 		rc := ref.Receipts[pick]
+		if rc.Status == pb.Receipt_SUCCESS {
+			// only reachable for C17's direct calls: judge what the successful call changed, then resynchronise
+			s.callEffectCheck(h, pick, metas[pick], rc, diff)
+			diff = nil
+			goto resync
+		}
 		if len(diff) > 0 {
 			s.vio("C07", "failed-tx-effect", metas[pick].kind+"/"+failClass(string(rc.Ret)),
 				"block %d tx %d (%s %s) FAILED with %q, yet compared with the same block where it is replaced by an empty transaction of the same sender and nonce the state differs in keys %q",
@@ -235,6 +253,7 @@ func (s *scn) twinCheck(h uint64, ev *pb.CommitEvent, txs []*pb.BxhTransaction, 
 			s.vio("C07", "failed-tx-delivered", metas[pick].kind, "block %d tx %d FAILED (%q) but is announced in the block's delivery set %s", h, pick, rc.Ret, metaString(ref.Meta))
 		}
 	}
+resync:
 	// bring the twin to the real block (after a neutralised block this goes through the executor's
 	// height-mismatch path: roll back one block, execute the real one)
 	tr, err := t.execute(ev, 12*time.Second)
